@@ -77,3 +77,76 @@ Proof.
   exists its. now apply accepts_with_sound.
 Qed.
 Print Assumptions accepts_sound.
+
+(* ---- every stamp is backed by the LTS's own event log at the moment it is taken -------------------------- *)
+(* [log] is the ghost log the C26 theorems speak about; [backed c o e]: what the log of the LTS state must already
+   contain when the driver stamps e *)
+Definition backed (c : cfg) (o : ost) (e : oev) : Prop :=
+  let l := log (o_s o) in
+  match e with
+  | OBeg j i => exists t, tm_find j i (o_tm o) = Some t /\ In (EvBegin t) l
+  | OEnd j i ok => exists t, tm_find j i (o_tm o) = Some t /\ In (EvBegin t) l /\ ok = negb (c_fail c t)
+  | OWait j r => exists a v, jm_find j (o_jm o) = Some a /\ In (EvResult a v) l /\ res_code o j v = Some r
+  | OCallback j => exists a v, jm_find j (o_jm o) = Some a /\ In (EvResult a v) l /\ v <> RShutdown
+  | OStopRet => In EvStopRet l
+  | OSeenShut => In EvStop l
+  | _ => True
+  end.
+
+Lemma ostamp_backed : forall c o e o', Inv c (o_s o) -> ostamp c o e = Some o' -> backed c o e.
+Proof.
+  intros c o e o' HI H. unfold ostamp in H. destruct e; cbn [backed]; try exact I.
+  - (* OBeg *)
+    destruct (tm_find j i (o_tm o)) as [t|]; [|discriminate]. exists t. split; [reflexivity|].
+    destruct (is_trun (tph (o_s o) t)) eqn:Ht; [|discriminate].
+    apply (begin_in_iff _ _ t HI). destruct (tph (o_s o) t); try discriminate. reflexivity.
+  - (* OEnd *)
+    destruct (tm_find j i (o_tm o)) as [t|]; [|discriminate]. exists t. split; [reflexivity|].
+    destruct (is_trun (tph (o_s o) t)) eqn:Ht; [|discriminate]. cbn [andb] in H.
+    destruct (mem t (o_beg o)); [|discriminate]. cbn [andb] in H.
+    destruct (negb (mem t (o_end o))); [|discriminate]. cbn [andb] in H.
+    destruct (Bool.eqb ok (negb (c_fail c t))) eqn:Hok; [|discriminate]. split.
+    + apply (begin_in_iff _ _ t HI). destruct (tph (o_s o) t); try discriminate. reflexivity.
+    + now apply eqb_prop.
+  - (* OCallback *)
+    destruct (jm_find j (o_jm o)) as [a|]; [|discriminate].
+    destruct (jresult (jobs (o_s o) a)) as [v|] eqn:Hr; [|discriminate].
+    exists a, v. split; [reflexivity|]. split; [now apply (l_res _ _ HI)|].
+    destruct v; cbn in H; try discriminate; intros Hv; discriminate.
+  - (* OWait *)
+    destruct (jm_find j (o_jm o)) as [a|]; [|discriminate].
+    destruct (jresult (jobs (o_s o) a)) as [v|] eqn:Hr; [|discriminate].
+    exists a, v. split; [reflexivity|]. split; [now apply (l_res _ _ HI)|].
+    destruct (is_cidle (o_cl o)); [|discriminate]. cbn [andb] in H.
+    unfold opt_eqb in H. destruct (res_code o j v) as [x|]; [|discriminate].
+    destruct (N.eqb x r) eqn:Hx; [|discriminate]. apply N.eqb_eq in Hx. now subst.
+  - (* OStopRet *)
+    destruct (is_sret (stop (o_s o))) eqn:Hs; [|discriminate]. apply (l_stopret _ _ HI).
+    destruct (stop (o_s o)); try discriminate. reflexivity.
+  - (* OSeenShut *)
+    destruct (shutdown (o_s o)) eqn:Hs; [|discriminate]. now apply (l_stop _ _ HI).
+Qed.
+
+Lemma orun_app_inv : forall c a b o o', orun c o (a ++ b) = Some o' ->
+  exists o1, orun c o a = Some o1 /\ orun c o1 b = Some o'.
+Proof.
+  intros c a. induction a as [|it a IH]; intros b o o' H.
+  - exists o. split; [reflexivity|exact H].
+  - cbn [app orun] in H |- *. destruct (ostep c o it) as [o2|]; [|discriminate]. now apply IH.
+Qed.
+
+(* In a run of the instrumented LTS every observed event is stamped in an LTS state whose log already contains
+   the model events it reports: a begin/end stamp of a task follows the task's EvBegin, a Wait result (and the
+   Done callback) follows the job's EvResult with that very result, Stop's return follows EvStopRet, a seen
+   shutdown flag follows EvStop.  (The state at the stamp is itself reached by a run of the LTS.) *)
+Theorem obs_backed : forall c its o, c_fixed c = true -> obs_run c its o ->
+  forall its1 e its2, its = its1 ++ IO e :: its2 ->
+  exists o1, obs_run c its1 o1 /\ steps c init (labels_of its1) (o_s o1) /\ backed c o1 e.
+Proof.
+  intros c its o Hf Hr its1 e its2 ->. unfold obs_run in Hr.
+  destruct (orun_app_inv _ _ _ _ _ Hr) as (o1 & H1 & H2). exists o1.
+  pose proof (orun_steps _ _ _ _ H1) as Hst. split; [exact H1|]. split; [exact Hst|].
+  cbn [orun ostep] in H2. destruct (ostamp c o1 e) as [o2|] eqn:Hs; [|discriminate].
+  eapply ostamp_backed; [|exact Hs]. apply Inv_reachable; [exact Hf|]. exists (labels_of its1). exact Hst.
+Qed.
+Print Assumptions obs_backed.
